@@ -217,7 +217,20 @@ impl HVal for (u64, (String, Vec<u8>)) {
     }
 }
 
-pub const N_VTYPES: u8 = 8;
+impl HVal for (u64, u8, String) {
+    const NAME: &'static str = "(u64,u8,String)";
+    fn make(stamp: u64, size: usize, shape: u8) -> Self {
+        (stamp, shape, pad_string(size, shape))
+    }
+    fn stamp(&self) -> u64 {
+        self.0
+    }
+    fn fp(&self) -> usize {
+        footprint(self)
+    }
+}
+
+pub const N_VTYPES: u8 = 9;
 
 /// Inline (zero-payload) footprint of each L1 value type, so generators can aim at M.
 pub fn base_fp(vtype: u8) -> usize {
@@ -229,7 +242,8 @@ pub fn base_fp(vtype: u8) -> usize {
         4 => std::mem::size_of::<(u64, Option<String>)>(),
         5 => std::mem::size_of::<(u64, Box<String>)>() + std::mem::size_of::<String>(),
         6 => std::mem::size_of::<(u64, Result<String, String>)>(),
-        _ => std::mem::size_of::<(u64, (String, Vec<u8>))>(),
+        7 => std::mem::size_of::<(u64, (String, Vec<u8>))>(),
+        _ => std::mem::size_of::<(u64, u8, String)>(),
     }
 }
 
@@ -270,6 +284,7 @@ plain_ret!((u64, Vec<String>));
 plain_ret!((u64, Option<String>));
 plain_ret!((u64, Box<String>));
 plain_ret!((u64, (String, Vec<u8>)));
+plain_ret!((u64, u8, String));
 
 impl Heap for UserVal {
     fn heap(&self) -> usize {
